@@ -103,6 +103,9 @@ pub struct Fault {
     /// fail the nth (0-based) call of that kind made by this op
     pub nth: u32,
     pub status: u8,
+    /// fail that call and every later call of the same kind made by this op
+    #[serde(default)]
+    pub sticky: bool,
 }
 
 #[derive(Serialize, Deserialize, Clone, Copy, Debug, PartialEq, Eq, Hash)]
@@ -123,6 +126,9 @@ pub struct Op {
     pub user: Vec<UserOutcome>,
     /// drop the ceremony future after this many polls
     pub cancel_after: Option<u32>,
+    /// entries of the allow / exclude list (by position) whose descriptor type is "unknown"
+    #[serde(default)]
+    pub unknown_type: Vec<bool>,
 }
 
 #[derive(Serialize, Deserialize, Clone, Debug, PartialEq)]
